@@ -1,1 +1,123 @@
-Theorem placeholder : True. Proof. exact I. Qed.
+(** C08 — BOCD maintains the exact Bayesian run-length posterior.
+    Model: Model/BOCD.v (log-space recursion of bocd.py: Gaussian unknown-mean model, constant
+    hazard, scipy logsumexp / norm.logpdf, argmax verdict; prediction as repaired by F16).
+    Spec:  Spec/BOCDSpec.v (Adams-MacKay recursion in LINEAR space: post_prec, post_mean,
+    gauss_pdf, pred, joint, evidence, posterior).
+    Proofs: Proofs/BOCDR.v.  [brun c vs] runs the model over the stream [vs] (oldest first);
+    the spec takes the stream newest-first, i.e. [rev vs]; t = [length vs].
+    [cfg_ok c]: prior_var > 0, data_var > 0, 0 < hazard < 1 and the constant handed to the
+    model is ln (sqrt (2 pi)). *)
+From Coq Require Import ZArith List Bool Lra Lia.
+From FV Require Import NumSys RealA Sums Detector BOCD BOCDSpec BOCDR.
+From Coq Require Import Reals.
+Import ListNotations.
+Local Open Scope R_scope.
+
+(** Non-vacuity: the library's default configuration (prior N(0,1), data variance 1,
+    hazard 0.01, min_num_instances 30) satisfies [cfg_ok]. *)
+Example C08_cfg_ok_inhabited : cfg_ok cfg_default.
+Proof. exact cfg_default_ok. Qed.
+
+(** 1. Parameters.  After t updates the model holds t+1 (mean, precision) pairs; entry k
+    (k = 0..t; entry 0 is the prior) is the conjugate posterior given the k NEWEST values:
+    precision 1/v0 + k/s2 and mean (m0/v0 + sum of those k values / s2) / precision. *)
+Theorem C08_params : forall (c : bocd_cfg RealA) (vs : list R), cfg_ok c ->
+  bmeans (brun c vs) = map (fun k => post_mean c (firstn k (rev vs))) (seq 0 (S (length vs))) /\
+  bprecs (brun c vs) = map (post_prec c) (seq 0 (S (length vs))).
+Proof. exact bocd_params. Qed.
+Print Assumptions C08_params.
+
+(** Key lemma: the model's max-shifted logsumexp of the logs of a non-empty list of positive
+    reals is the log of their sum. *)
+Theorem C08_logsumexp : forall l : list R, l <> [] -> Forall (fun x => 0 < x) l ->
+  @logsumexp RealA (map ln l) = ln (Rsum l).
+Proof. exact logsumexp_ln. Qed.
+Print Assumptions C08_logsumexp.
+
+(** Key lemma: scipy's norm(mu, sqrt va).logpdf(x), as transliterated, is the log of the
+    Gaussian density with variance va > 0. *)
+Theorem C08_logpdf : forall (c : bocd_cfg RealA) (x mu va : R),
+  bo_ln_sqrt_2pi c = ln (sqrt (2 * PI)) -> 0 < va ->
+  norm_logpdf c x mu (sqrt va) = ln (gauss_pdf x mu va).
+Proof. exact norm_logpdf_ln. Qed.
+Print Assumptions C08_logpdf.
+
+(** 2. The message (log_message, kept UNNORMALISED by the code) is exactly the log of the
+    joint J_t(k) = P(r_t = k, x_1..x_t), k = 0..t; every joint entry is strictly positive, so
+    each logarithm is taken inside its domain. *)
+Theorem C08_msg_is_ln_joint : forall (c : bocd_cfg RealA) (vs : list R), cfg_ok c ->
+  bmsg (brun c vs) = map ln (joint c (rev vs)) /\ Forall (fun j => 0 < j) (joint c (rev vs)).
+Proof. exact bocd_msg_is_ln_joint. Qed.
+Print Assumptions C08_msg_is_ln_joint.
+
+(** 3. The row log_r[t] is the log of the run-length posterior (all entries positive) ... *)
+Theorem C08_row_is_ln_posterior : forall (c : bocd_cfg RealA) (vs : list R), cfg_ok c ->
+  brow (brun c vs) = map ln (posterior c (rev vs)) /\ Forall (fun p => 0 < p) (posterior c (rev vs)).
+Proof. exact bocd_row_is_ln_posterior. Qed.
+Print Assumptions C08_row_is_ln_posterior.
+
+(** ... hence exp of the row IS the exact posterior P(r_t = k | x_1..x_t) = J_t(k) / E_t,
+    for every t >= 0 (at t = 0 the row is [0] = [ln 1]). *)
+Theorem C08_row_is_posterior : forall (c : bocd_cfg RealA) (vs : list R), cfg_ok c ->
+  map exp (brow (brun c vs)) = posterior c (rev vs).
+Proof. exact bocd_row_is_posterior. Qed.
+Print Assumptions C08_row_is_posterior.
+
+(** 4. Every row sums to one. *)
+Theorem C08_row_normalised : forall (c : bocd_cfg RealA) (vs : list R), cfg_ok c ->
+  Rsum (map exp (brow (brun c vs))) = 1.
+Proof. exact bocd_row_normalised. Qed.
+Print Assumptions C08_row_normalised.
+
+(** 5. After at least one update the predicted mean / variance are the mixtures
+    sum_k P_t(k) * mu_k and sum_k P_t(k) * (1/prec_k + s2), with the weights of item 3 and
+    the (post-update) parameters of item 1.  (Before any update both are None.) *)
+Theorem C08_prediction : forall (c : bocd_cfg RealA) (vs : list R), cfg_ok c -> vs <> [] ->
+  bpmean (brun c vs) =
+    Some (Rsum (map (fun k => nth k (posterior c (rev vs)) 0 * post_mean c (firstn k (rev vs)))
+                    (seq 0 (S (length vs))))) /\
+  bpvar (brun c vs) =
+    Some (Rsum (map (fun k => nth k (posterior c (rev vs)) 0 * (1 / post_prec c k + bo_data_var c))
+                    (seq 0 (S (length vs))))).
+Proof. exact bocd_prediction. Qed.
+Print Assumptions C08_prediction.
+
+(** 6. Verdict.  [argmaxR] (Proofs/BOCDR.v) is the position of the first maximum of a list
+    of reals, defined independently of the model's scan; this theorem pins it down. *)
+Theorem C08_argmaxR_is_first_max : forall l : list R, l <> [] ->
+  let k := argmaxR l in
+  (k < length l)%nat /\
+  (forall j, (j < length l)%nat -> nth j l 0 <= nth k l 0) /\
+  (forall j, (j < k)%nat -> nth j l 0 < nth k l 0).
+Proof. exact argmaxR_spec. Qed.
+
+(** numpy's argmax on the log row (the model's [argmax]) is the first maximum of the
+    posterior itself (exp is strictly increasing). *)
+Theorem C08_argmax_row : forall (c : bocd_cfg RealA) (vs : list R), cfg_ok c ->
+  @argmax RealA (brow (brun c vs)) = Z.of_nat (argmaxR (posterior c (rev vs))).
+Proof. exact bocd_argmax_row. Qed.
+Print Assumptions C08_argmax_row.
+
+(** From min_num_instances on, drift is reported exactly when the most probable run length
+    is not t ... *)
+Theorem C08_verdict : forall (c : bocd_cfg RealA) (vs : list R), cfg_ok c ->
+  (bo_min c <= Z.of_nat (length vs))%Z ->
+  (bdrift (brun c vs) = true <-> argmaxR (posterior c (rev vs)) <> length vs).
+Proof. exact bocd_verdict. Qed.
+Print Assumptions C08_verdict.
+
+(** ... equivalently (run lengths range over 0..t): NO drift exactly when run length t is
+    strictly more probable than every shorter run length ... *)
+Theorem C08_verdict_explicit : forall (c : bocd_cfg RealA) (vs : list R), cfg_ok c ->
+  (bo_min c <= Z.of_nat (length vs))%Z ->
+  (bdrift (brun c vs) = false <->
+   forall k, (k < length vs)%nat ->
+     nth k (posterior c (rev vs)) 0 < nth (length vs) (posterior c (rev vs)) 0).
+Proof. exact bocd_verdict_explicit. Qed.
+Print Assumptions C08_verdict_explicit.
+
+(** ... and before min_num_instances no drift is ever reported. *)
+Theorem C08_no_drift_before_min : forall (c : bocd_cfg RealA) (vs : list R), cfg_ok c ->
+  (Z.of_nat (length vs) < bo_min c)%Z -> bdrift (brun c vs) = false.
+Proof. exact bocd_no_drift_before_min. Qed.
+Print Assumptions C08_no_drift_before_min.
